@@ -150,6 +150,7 @@ type Options struct {
 	SolverLog  string
 	CrossCheck string // second solver for final obligations
 	StopOnViolation bool
+	ProfileForks bool
 }
 
 type HarnessReport struct {
@@ -174,6 +175,7 @@ type Report struct {
 	Funcs      map[string]int
 	SolverErrors []string
 	TimedOut   bool
+	ForkSites  map[string]int
 }
 
 type job struct {
@@ -188,7 +190,7 @@ func (p *Program) Explore(entries []*ssa.Function, opt Options) *Report {
 	if opt.Workers <= 0 {
 		opt.Workers = 8
 	}
-	rep := &Report{Harness: map[string]*HarnessReport{}, Funcs: map[string]int{}}
+	rep := &Report{Harness: map[string]*HarnessReport{}, Funcs: map[string]int{}, ForkSites: map[string]int{}}
 	for _, e := range entries {
 		rep.Harness[e.Name()] = &HarnessReport{Name: e.Name(), Paths: map[string]int{}, Reached: map[string]bool{}}
 	}
@@ -219,6 +221,9 @@ func (p *Program) Explore(entries []*ssa.Function, opt Options) *Report {
 					rep.SolverErrors = append(rep.SolverErrors, m.solver.Errors...)
 					for k, v := range m.Stats.Funcs {
 						rep.Funcs[k] += v
+					}
+					for k, v := range m.Stats.ForkSites {
+						rep.ForkSites[k] += v
 					}
 					mu.Unlock()
 					m.solver.Close()
@@ -374,6 +379,9 @@ func (p *Program) NewMachine(opt Options) (*Machine, error) {
 		m.MaxDepth = 400
 	}
 	m.Stats.Funcs = map[string]int{}
+	if opt.ProfileForks {
+		m.Stats.ForkSites = map[string]int{}
+	}
 	m.Intr = map[string]Intrinsic{}
 	if os.Getenv("GSX_SLOW") != "" {
 		s.SlowThreshold = 2 * time.Second
